@@ -230,6 +230,11 @@ class _StmtCanon(ast.NodeTransformer):
                 pre = ast.copy_location(ast.Assign(targets=[ast.Name(id=w.target.id, ctx=ast.Store())], value=w.value), st)
                 _replace_node(st, w, ast.copy_location(ast.Name(id=w.target.id, ctx=ast.Load()), w))
                 return self._one(pre, before) + self._one(st, before + [pre])
+        # `match x: case "a": ... case "b" | "c": ... case _: ...` over literals is an if / elif chain on equality
+        if isinstance(st, ast.Match) and self.depth:
+            chain = _match_to_if(st)
+            if chain is not None:
+                return self._one(chain, before)
         # table-driven loop over a literal
         if isinstance(st, ast.For) and not st.orelse and self.depth:
             un = self._unroll(st, before)
@@ -294,6 +299,43 @@ class _StmtCanon(ast.NodeTransformer):
             for s in _subst(st.body, m):
                 out.append(_fold_const_attr(s))
         return out
+
+
+def _match_to_if(m: ast.Match):
+    subj = m.subject
+    simple = isinstance(subj, (ast.Name, ast.Constant)) or (isinstance(subj, ast.Attribute) and isinstance(subj.value, ast.Name))
+    if not simple:
+        return None
+
+    def test_of(pat):
+        if isinstance(pat, ast.MatchValue) and isinstance(pat.value, ast.Constant):
+            return ast.Compare(left=copy.deepcopy(subj), ops=[ast.Eq()], comparators=[pat.value])
+        if isinstance(pat, ast.MatchSingleton):
+            return ast.Compare(left=copy.deepcopy(subj), ops=[ast.Is()], comparators=[ast.Constant(value=pat.value)])
+        if isinstance(pat, ast.MatchOr) and all(isinstance(p, ast.MatchValue) and isinstance(p.value, ast.Constant) for p in pat.patterns):
+            return ast.Compare(left=copy.deepcopy(subj), ops=[ast.In()], comparators=[ast.Tuple(elts=[p.value for p in pat.patterns], ctx=ast.Load())])
+        return None
+
+    head = None
+    cur = None
+    for case in m.cases:
+        if case.guard is not None:
+            return None
+        if isinstance(case.pattern, ast.MatchAs) and case.pattern.pattern is None and case.pattern.name is None:
+            if cur is None:
+                return None
+            cur.orelse = list(case.body)
+            return ast.fix_missing_locations(ast.copy_location(head, m))
+        t = test_of(case.pattern)
+        if t is None:
+            return None
+        node = ast.copy_location(ast.If(test=t, body=list(case.body), orelse=[]), case.body[0])
+        if cur is None:
+            head = node
+        else:
+            cur.orelse = [node]
+        cur = node
+    return ast.fix_missing_locations(ast.copy_location(head, m)) if head is not None else None
 
 
 def _pure_elem(e) -> bool:
